@@ -259,8 +259,8 @@ func rm1RemovalTargets(p *core.Prog, rep *core.Report) {
 			}
 		}
 	}
-	if n < 3 {
-		rep.Unk("VAC", "RM1", "expected >= 3 removal calls in the library", "", fmt.Sprintf("found %d", n))
+	if n < 1 {
+		rep.Unk("VAC", "RM1", "expected >= 1 removal call in the library", "", fmt.Sprintf("found %d", n))
 		return
 	}
 	rep.Check(len(bad) == 0, "RM1", "removal-targets-constructed", fmt.Sprintf("none of the %d os.Remove / os.RemoveAll calls takes a listed name", n), "", strings.Join(sortedStr(bad), "; "), true)
